@@ -17,6 +17,8 @@ PYFLAGS = {
     "ref": "-O2 -g1 -DNDEBUG",
 }
 _done = {}
+import threading as _threading
+_lock = _threading.Lock()
 
 
 def gcc_file(name):
@@ -27,6 +29,11 @@ def gcc_file(name):
 def py_build(cfg):
     """returns dict(dir, moddir, env) with the environment needed to import the freshly built imath module
     into the stock /usr/bin/python3 (sanitizer runtimes preloaded)."""
+    with _lock:      # workload threads ask for the build concurrently: build once
+        return _py_build_locked(cfg)
+
+
+def _py_build_locked(cfg):
     if cfg in _done:
         return _done[cfg]
     d = os.path.join(BUILD, "py-" + cfg)
@@ -46,7 +53,7 @@ def py_build(cfg):
             raise Inconclusive("cmake configure of PyImath (%s) failed:\n%s\n%s" % (cfg, o[-3000:], e[-3000:]))
         with open(fstamp, "w") as f:
             f.write(flags)
-    rc, o, e, to = run(["cmake", "--build", d, "-j", str(NCPU)], timeout=3600)
+    rc, o, e, to = run(["cmake", "--build", d, "-j", os.environ.get("VERIF_PYJOBS", str(NCPU))], timeout=7200)
     if rc != 0:
         raise Inconclusive("build of PyImath (%s) failed:\n%s\n%s" % (cfg, o[-6000:], e[-2000:]))
     mods = glob.glob(os.path.join(d, "python3*", "imath*.so"))
